@@ -70,5 +70,14 @@ package generics
 //@ contract generics.(*MapWithTTL).Keys props C32
 //@   requires m != nil
 //@   ensures[lists-only-the-view] forall i int :: 0 <= i && i < len(result) ==> (in(old(m.Items), result[i]) && !old(m.Items)[result[i]].Expiration.Before(clockNow(m.Clock)))
+//@   ensures[only-expired-entries-leave] forall j K :: in(m.Items, j) == (in(old(m.Items), j) && !old(m.Items)[j].Expiration.Before(clockNow(m.Clock)))
+//@   ensures[entries-kept] forall j K :: in(m.Items, j) ==> m.Items[j] == old(m.Items)[j]
 //@   loop 1 invariant forall i int :: 0 <= i && i < len(keys) ==> in(m.Items, keys[i])
+//@   modifies m.Items
+
+//@ contract generics.(*MapWithTTL).SortedKeys props C32,C18
+//@   requires m != nil
+//@   ensures[lists-only-the-view] forall i int :: 0 <= i && i < len(result) ==> (in(old(m.Items), result[i]) && !old(m.Items)[result[i]].Expiration.Before(clockNow(m.Clock)))
+//@   ensures[only-expired-entries-leave] forall j K :: in(m.Items, j) == (in(old(m.Items), j) && !old(m.Items)[j].Expiration.Before(clockNow(m.Clock)))
+//@   ensures[entries-kept] forall j K :: in(m.Items, j) ==> m.Items[j] == old(m.Items)[j]
 //@   modifies m.Items
